@@ -225,7 +225,14 @@ func caseLit(c Case, out graph.Layout, snaps []autog.VerifSnap, crossings []int)
 	if c.Thoroughness > 0 {
 		th = c.Thoroughness
 	}
-	fmt.Fprintf(&b, "(mkOptions %s %s %s %s %d 4 %s %s %s) true [", p1, p2, p4, p5, th, qlit(c.NodeSpacing), qlit(c.LayerSpacing), boolLit(c.VirtualOut))
+	bk := -2
+	switch c.P4 {
+	case "bk":
+		bk = -1
+	case "bk0", "bk1", "bk2", "bk3":
+		bk = int(c.P4[2] - '0')
+	}
+	fmt.Fprintf(&b, "(mkOptions %s %s %s %s %d 4 %s %s %s) true %s [", p1, p2, p4, p5, th, qlit(c.NodeSpacing), qlit(c.LayerSpacing), boolLit(c.VirtualOut), zlit(bk))
 	for i, s := range snaps {
 		if i > 0 {
 			b.WriteString(";\n   ")
